@@ -18,7 +18,7 @@ LEVEL = "exploration"
 RULE = (
     "complete enumeration of (transform, parameters) x (gulp, sub-range) design points: transforms = invert_freq, "
     "apply_channel_mask (all 16 masks over 4 channels + 3 over 8, 2 fill values), extract_samps, extract_chans (6 lists), "
-    "extract_bands (every legal chanstart/nchans/chanpersub), downsample (every tfactor 1..N x ffactor | C), subband "
+    "extract_bands (every legal chanstart/nchans/chanpersub, plus batch sizes 1..3), downsample (every tfactor 1..N x ffactor | C), subband "
     "(nsub | C x DM set), remove_zerodm; thorough: full product gulp 1..N+1,10N x every sub-range; quick: all gulps x 3 "
     "ranges + 3 gulps x all ranges. Output decoded independently and via FilReader/from_tim; raw size must equal hdrlen + "
     "n*C*nbits/8. Non-trivial = more than one block or a proper sub-range"
@@ -53,7 +53,9 @@ def _params(name: str, nbits: int, C: int, N: int, tier: str):
         ms += [[1] * C, [0, 1] * (C // 2), [0] * (C - 1) + [1]]
         return [[m, v] for m in ms for v in ([0, 1] if nbits <= 2 else [0, 3])]
     if name == "extract_chans":
-        return [[0], [C - 1], [2, 5], [5, 2], None, [3, 3]]
+        # [channel list, batch_size]; small batch sizes exercise the second and later batches
+        lists = [[0], [C - 1], [2, 5], [5, 2], None, [3, 3]]
+        return [[cl, 200] for cl in lists] + [[None, 3], [[5, 2, 7, 0], 1], [[1, 4, 6], 2]]
     if name == "extract_bands":
         out = []
         for cps in (2, 4, 8):
@@ -61,7 +63,9 @@ def _params(name: str, nbits: int, C: int, N: int, tier: str):
                 continue
             for nch in range(cps, C + 1, cps):
                 for cs in range(0, C - nch + 1):
-                    out.append([cs, nch, cps])
+                    out.append([cs, nch, cps, 200])
+        # small batch sizes: bands of the second and later batches
+        out += [[0, C, 2, 1], [0, C, 2, 3], [1, 6, 2, 2]] if aligned(2) else [[0, C, cps, 1] for cps in (4, 8) if aligned(cps)]
         return out
     if name == "downsample":
         tfs = range(1, N + 1) if tier == "thorough" else [1, 2, 3, 4, 5, 7, N]
@@ -171,10 +175,10 @@ def _expected(name, p, Y, nbits, C, delays):
     if name == "extract_samps":
         return [(C, nbits, Y, 0)]
     if name == "extract_chans":
-        chans = list(range(C)) if p is None else p
+        chans = list(range(C)) if p[0] is None else p[0]
         return [(1, 32, Y[:, [c]], 0) for c in chans]
     if name == "extract_bands":
-        cs, nch, cps = p
+        cs, nch, cps = p[:3]
         return [(cps, nbits, Y[:, cs + i * cps : cs + (i + 1) * cps], 0) for i in range((C - cs) // cps)]
     if name == "downsample":
         tf, ff = p
@@ -223,9 +227,9 @@ def _run_transform(fil, name, p, g, st, ns, wd):
     if name == "extract_samps":
         return [fil.extract_samps(st or 0, ns if ns is not None else fil.header.nsamples - (st or 0), outfile_name=out, **kw)]
     if name == "extract_chans":
-        return list(fil.extract_chans(None if p is None else np.array(p), outfile_base=base, **rk))
+        return list(fil.extract_chans(None if p[0] is None else np.array(p[0]), outfile_base=base, batch_size=p[1], **rk))
     if name == "extract_bands":
-        return list(fil.extract_bands(p[0], p[1], p[2], outfile_base=base, **rk))
+        return list(fil.extract_bands(p[0], p[1], p[2], outfile_base=base, batch_size=p[3], **rk))
     if name == "downsample":
         return [fil.downsample(tfactor=p[0], ffactor=p[1], outfile_name=out, **rk)]
     if name == "subband":
